@@ -516,3 +516,19 @@ Proof.
   all: try (destruct (cancel_ents c (s_ents s) a k) as [[ents|]|]; inv H; reflexivity).
   all: try (destruct (sh_is_async sh); inv H; reflexivity).
 Qed.
+
+(* ------------------------------------------------------------------ *)
+(* C04 at the level of the abstract machine: at rest (no guard, nothing in flight) the keys the container holds --
+   what num_entries_or_locked / keys_with_entries_or_locked report -- are exactly the keys to which the plain map that
+   explains the history assigns a value.  (What the linearisability stage checks at the end of every real-thread
+   history.) *)
+Theorem rest_keys_are_the_maps_keys s sp :
+  Inv s -> R s sp -> s_guards s = [] -> s_ops s = [] ->
+  forall k, In k (akeys (s_ents s)) <-> sp_val sp k <> None.
+Proof.
+  intros HI (Rv & _ & _) Eg Eo k. rewrite (quiescent_keys s k HI Eg Eo), <- Rv.
+  unfold valued, vof, vof_e, val_of. split.
+  - intros (e & He & Hv). rewrite He. destruct (e_val e) as [[v st]|]; congruence.
+  - destruct (aget k (s_ents s)) as [e|]; [|congruence]. intros Hv. exists e. split; auto.
+    destruct (e_val e) as [[v st]|]; congruence.
+Qed.
